@@ -40,7 +40,7 @@ impl<'a> EnumData<'a> {
                 VariantData::new(variant, name, input.generics.lifetimes(), default_id)?;
 
             fallback = variant_data.is_fallback();
-            default_id = variant_data.id() + 1;
+            default_id = variant_data.id().wrapping_add(1);
             variant_datas.push(variant_data);
         }
 
